@@ -150,6 +150,29 @@ struct Ctx {
     labels: Vec<String>,
 }
 
+/// like `materialize`, but every table gets 9 extra rows appended and popped again after its
+/// own rows (its hash part grows at least once): same rows in the same order, other history
+fn materialize_churned(vm: &mut Vm<()>, v: &MV) -> Result<Value, ExecutionErrorPayload> {
+    Ok(match v {
+        MV::Table(entries) => {
+            let mut g = vm.init_table()?;
+            for (k, val) in entries {
+                let k = materialize_churned(vm, k)?;
+                let val = materialize_churned(vm, val)?;
+                g.as_table_mut().unwrap().insert(k, val)?;
+            }
+            for i in 0..9 {
+                g.as_table_mut().unwrap().append(Value::Integer(i))?;
+            }
+            for _ in 0..9 {
+                g.as_table_mut().unwrap().pop()?;
+            }
+            Value::Object(g.into_inner())
+        }
+        other => materialize(vm, other)?,
+    })
+}
+
 fn check(vm: &mut Vm<()>, ms: [&MV; 3]) -> Ctx {
     let mut cx = Ctx { fail: None, labels: vec![] };
     let mut vals = vec![];
@@ -164,11 +187,26 @@ fn check(vm: &mut Vm<()>, ms: [&MV; 3]) -> Ctx {
     }
     // a second materialisation of `a`: distinct objects, equal content
     let a2 = materialize(vm, ms[0]).unwrap();
+    // a third one with another build history: every table (at any depth) additionally received
+    // 9 rows that were popped again, so its storage grew - same rows, same order
+    let a3 = materialize_churned(vm, ms[0]).unwrap();
     macro_rules! fail {
         ($clause:expr, $($arg:tt)*) => {{
             cx.fail = Some(Failure::new($clause, &format!("c19:{}", $clause), format!($($arg)*)));
             return cx;
         }};
+    }
+    if law_domain(ms[0]) && matches!(ms[0], MV::Table(_)) {
+        cx.labels.push("equal_tables_other_build_history".into());
+        if vals[0] != a3 || a3 != vals[0] {
+            fail!("eq_by_content", "{} built directly and built with 9 rows appended and popped again are not equal", ms[0].to_json());
+        }
+        if !ms[0].has_zero_real() && std_hash(&vals[0]) != std_hash(&a3) {
+            fail!("eq_implies_hash", "{} built directly and built with 9 rows appended and popped again are equal but hash differently", ms[0].to_json());
+        }
+        if vals[0] < a3 || a3 < vals[0] || !(vals[0] <= a3) {
+            fail!("order_consistent_with_eq", "{} built directly and built with 9 rows appended and popped again are equal but ordered", ms[0].to_json());
+        }
     }
     // totality of hashing / truthiness / comparison on every value (incl. functions)
     for (m, v) in ms.iter().zip(vals.iter()) {
